@@ -8,6 +8,7 @@ import (
 	"encoding/json"
 	"fmt"
 	"os"
+	"path/filepath"
 	"strings"
 	"sync"
 	"sync/atomic"
@@ -17,6 +18,7 @@ import (
 	"verifh/lib/hx"
 
 	"github.com/criyle/go-sandbox/container"
+	"github.com/criyle/go-sandbox/pkg/forkexec"
 	"github.com/criyle/go-sandbox/pkg/pipe"
 	"github.com/criyle/go-sandbox/pkg/seccomp"
 	"github.com/criyle/go-sandbox/pkg/seccomp/libseccomp"
@@ -94,6 +96,39 @@ func one(w map[string]any, envs []container.Environment) map[string]any {
 		<-buf.Done
 		return map[string]any{"status": int(res.Status), "exit": res.ExitStatus, "error": res.Error, "stdout": "", "foreign_paths": foreign.Load(),
 			"ms": time.Since(t0).Milliseconds()}
+	case "openloop":
+		// one user of an environment: its own file, opened and read back again and again, a Ping now and then
+		env := envs[int(hx.Int(w["env"]))%len(envs)]
+		tag := w["tag"].(string)
+		verdict := "ok"
+		rs, err := env.Open([]container.OpenCmd{{Path: "/w/" + tag, Flag: os.O_CREATE | os.O_RDWR | os.O_TRUNC, Perm: 0600}})
+		if err != nil || len(rs) != 1 || rs[0].Err != nil {
+			verdict = fmt.Sprint("create: ", err, rs)
+		} else {
+			rs[0].File.WriteString(tag)
+			rs[0].File.Close()
+			for rd := 0; rd < int(hx.Int(w["rounds"])) && verdict == "ok"; rd++ {
+				rs, err := env.Open([]container.OpenCmd{{Path: "/w/" + tag, Flag: os.O_RDONLY}})
+				if err != nil || len(rs) != 1 || rs[0].Err != nil {
+					verdict = fmt.Sprintf("round %d: open failed: %v %v", rd, err, rs)
+					break
+				}
+				b := make([]byte, 64)
+				n, _ := rs[0].File.Read(b)
+				rs[0].File.Close()
+				if string(b[:n]) != tag {
+					verdict = fmt.Sprintf("round %d: opened its own file and read another user's: %q", rd, string(b[:n]))
+				}
+				if rd%10 == 9 {
+					if err := env.Ping(); err != nil {
+						verdict = fmt.Sprintf("round %d: ping: %v", rd, err)
+					}
+				}
+			}
+		}
+		buf.W.Close()
+		<-buf.Done
+		return map[string]any{"status": 1, "exit": 0, "error": "", "stdout": verdict, "ms": time.Since(t0).Milliseconds()}
 	case "ping":
 		time.Sleep(time.Duration(hx.Int(w["delay_ms"])) * time.Millisecond)
 		err := envs[int(hx.Int(w["env"]))%len(envs)].Ping()
@@ -128,6 +163,68 @@ func one(w map[string]any, envs []container.Environment) map[string]any {
 		"ms": time.Since(t0).Milliseconds()}
 }
 
+// etxtbsy: run A executes a freshly written program through its descriptor; run B (with a callback that holds its child back for
+// 10 ms) is cloned while A still has the file open for writing, so B's child carries a write descriptor of A's program until it
+// execs.  A's launch must not depend on B.
+func etxtbsy(iters int, withB bool) map[string]any {
+	probe, err := os.ReadFile(hx.Target())
+	if err != nil {
+		return map[string]any{"harness_err": err.Error()}
+	}
+	null, _ := os.OpenFile("/dev/null", os.O_RDWR, 0)
+	defer null.Close()
+	outcomes := []string{}
+	for i := 0; i < iters; i++ {
+		path := filepath.Join(scratch, fmt.Sprintf("fresh%d", i))
+		f, err := os.OpenFile(path, os.O_CREATE|os.O_WRONLY|os.O_TRUNC, 0700)
+		if err != nil {
+			return map[string]any{"harness_err": err.Error()}
+		}
+		bdone := make(chan struct{})
+		if withB {
+			cloned := make(chan struct{})
+			go func() {
+				defer close(bdone)
+				b := &forkexec.Runner{Args: []string{hx.Target(), "exit", "0"}, Env: []string{}, Files: []uintptr{null.Fd(), null.Fd(), null.Fd()},
+					SyncFunc: func(int) error { close(cloned); time.Sleep(10 * time.Millisecond); return nil }}
+				pid, err := b.Start()
+				if err != nil {
+					select {
+					case <-cloned:
+					default:
+						close(cloned)
+					}
+					return
+				}
+				var ws syscall.WaitStatus
+				syscall.Wait4(pid, &ws, 0, nil)
+			}()
+			<-cloned
+		} else {
+			close(bdone)
+		}
+		f.Write(probe)
+		f.Close()
+		ef, err := os.Open(path)
+		if err != nil {
+			return map[string]any{"harness_err": err.Error()}
+		}
+		a := &forkexec.Runner{Args: []string{"fresh", "exit", "7"}, Env: []string{}, ExecFile: ef.Fd(), Files: []uintptr{null.Fd(), null.Fd(), null.Fd()}}
+		pid, err := a.Start()
+		if err != nil {
+			outcomes = append(outcomes, "start: "+err.Error())
+		} else {
+			var ws syscall.WaitStatus
+			syscall.Wait4(pid, &ws, 0, nil)
+			outcomes = append(outcomes, fmt.Sprintf("exit %d", ws.ExitStatus()))
+		}
+		ef.Close()
+		<-bdone
+		os.Remove(path)
+	}
+	return map[string]any{"outcomes": outcomes}
+}
+
 func main() {
 	hx.Init()
 	scratch = os.Getenv("VERIF_SCRATCH")
@@ -136,6 +233,9 @@ func main() {
 		panic(ferr)
 	}
 	hx.Cases(func(c map[string]any) map[string]any {
+		if c["mode"] == "etxtbsy" {
+			return etxtbsy(int(hx.Int(c["iters"])), c["with_b"] == true)
+		}
 		nenv := int(hx.Int(c["envs"]))
 		envs := []container.Environment{}
 		for i := 0; i < nenv; i++ {
